@@ -17,8 +17,10 @@ def check(F, rep):
     rep.clause("atomic set {last_data, services}: add_boxed (read last_data, publish it to the new service, append the service) and publish (fan out to all services, store last_data) exclude each other and publishes exclude one another: add_boxed keeps a last_data guard from the read until the service is appended; publish holds last_data exclusively from before the fan-out until it stored the new value")
     rep.clause("the address filter is applied once, before the fan-out, and the filtered value is what is stored")
     rep.undecided("what each service does with the data it was handed")
+    from ..inline import inlined
     ab = get_fn(F, rep, S + "::add_boxed")
-    pb = get_fn(F, rep, S + "::publish")
+    pb0 = get_fn(F, rep, S + "::publish")
+    pb = inlined(F, pb0)        # e.g. the filter step moved into a private helper
     # ---- add_boxed
     gs = guards(ab)
     ld = [g for g in gs if lock_field(g) == "last_data"]
@@ -45,7 +47,28 @@ def check(F, rep):
     pld = [g for g in gp if lock_field(g) == "last_data"]
     psv = [g for g in gp if lock_field(g) == "services"]
     fan = find_calls(pb, regex=PUB)
+    if not fan:
+        # `services.iter().for_each(|s| s.publish(&data))`: the adapter call is the fan-out
+        for b_, t_ in find_calls(pb, regex=r"Iterator::for_each$"):
+            m_ = re.search(r"closure@[^:]+:(\d+):", str(pb.locals[op_base(t_["args"][1])])) if op_base(t_["args"][1]) is not None else None
+            for c_ in F.tree(pb0):
+                if c_ is not pb0 and m_ and c_.line == int(m_.group(1)) and find_calls(c_, regex=PUB):
+                    rep.fn(c_)
+                    caps = [st["rv"]["ops"] for bb_, i_, st in pb.stmts() if st["k"] == "a" and st["lhs"] == {"l": op_base(t_["args"][1])} and st["rv"]["k"] == "agg"]
+                    # present the call as publish(receiver, data) with the captured data
+                    fan.append((b_, {"k": "call", "callee": "for_each:publish", "args": [t_["args"][0], (caps[0][0] if caps and caps[0] else t_["args"][1])], "dest": t_["dest"]}))
     rp = find_calls(pb, "core::option::Option::replace")
+    if not rp:
+        # `*last_data = Some(data)` through the write guard
+        for b_, i_, st in pb.stmts():
+            if st["k"] == "a" and st["lhs"].get("p") and st["lhs"]["p"][0][0] == "deref" and len(st["lhs"]["p"]) == 1:
+                dc = def_call(pb, st["lhs"]["l"])
+                if dc is not None and call_matches(dc[1], r"DerefMut::deref_mut$") and "last_data" in str(pb.locals[arg_ref_target(pb, dc[1]["args"][0]) or 0]) + "".join(str(x) for x in copy_sources(pb, op_base(dc[1]["args"][0]))):
+                    pass
+                if dc is not None and call_matches(dc[1], r"DerefMut::deref_mut$") and st["rv"]["k"] in ("use", "agg"):
+                    val = st["rv"]["o"] if st["rv"]["k"] == "use" else (st["rv"]["ops"][0] if st["rv"].get("ops") else None)
+                    if val is not None:
+                        rp.append((b_, {"k": "call", "callee": "assign:last_data", "args": [dc[1]["args"][0], val], "dest": {"l": 0}}))
     rep.exact("lockset", "publish: last_data acquisitions", len(pld), 1)
     rep.exact("lockset", "publish: services acquisitions", len(psv), 1)
     rep.exact("lockset", "publish: fan-out call", len(fan), 1)
